@@ -61,13 +61,21 @@ impl Prop for C04 {
         let sources = 1 + src.below(2);
         let ops = gen_ops(src, 7, 3_000);
         let perm = src.permutation(ops.len());
-        let ops = perm
+        let mut ops: Vec<(SetOp, usize)> = perm
             .into_iter()
             .map(|i| {
                 let s = src.below(sources);
                 (ops[i], s)
             })
             .collect();
+        // "operation multisets": the same operation may be delivered again (direct replication plus repair,
+        // duplicated messages), through the same or the other source
+        for _ in 0..src.weighted(&[4, 2, 1]) {
+            let which = src.below(ops.len());
+            let at = which + 1 + src.below(ops.len() - which);
+            let copy = (ops[which].0, src.below(sources));
+            ops.insert(at, copy);
+        }
         Case { sources, ops }
     }
 
@@ -91,8 +99,10 @@ impl Prop for C04 {
 
     fn rule(&self) -> &'static str {
         "1-7 inserts/deletes on 1-3 keys, distinct stamps from a tie-rich grid inside a 3000 s window, \
-         arrival order = generated permutation, source per op generated (OrSWotSet<1> and <2>); oracle: \
-         after every op will_apply(before)==return value==(view of the key changed), final live set == \
+         arrival order = generated permutation, 0-2 of them delivered a second time later on (same or other source), \
+         source per op generated (OrSWotSet<1> and <2>); oracle: \
+         after every op will_apply(before)==return value==(view of the key changed), no key both live and \
+         tombstoned, final live set == \
          LWW model; non-trivial = some op arrives after a newer op of the same origin on the same source"
     }
 }
@@ -134,6 +144,13 @@ fn run_n<const N: usize>(case: &Case) -> Outcome {
             "will-apply-vs-return",
             "step {i}: will_apply predicted {predicted} but {:?} returned {returned}",
             op
+        );
+        ensure!(
+            after.live.keys().all(|k| !after.dead.contains_key(k)),
+            "key-live-and-tombstoned",
+            "step {i}: after {:?} a key is both live and tombstoned: {:?}",
+            op,
+            after
         );
         // other keys untouched
         for k in before.live.keys().chain(before.dead.keys()) {
